@@ -526,12 +526,12 @@ func (p *printer) fieldList(fields *ast.FieldList, isStruct, isIncomplete bool) 
 				}
 				p.expr(f.Type)
 			} else { // interface
-				if ftyp, isFtyp := f.Type.(*ast.FuncType); isFtyp {
+				if ftyp, isFtyp := f.Type.(*ast.FuncType); isFtyp && len(f.Names) > 0 {
 					// method
 					p.expr(f.Names[0])
 					p.signature(ftyp)
 				} else {
-					// embedded interface
+					// embedded interface or type-set term
 					p.expr(f.Type)
 				}
 			}
@@ -615,12 +615,12 @@ func (p *printer) fieldList(fields *ast.FieldList, isStruct, isIncomplete bool) 
 			}
 			p.setComment(f.Doc)
 			p.recordLine(&line)
-			if ftyp, isFtyp := f.Type.(*ast.FuncType); isFtyp {
+			if ftyp, isFtyp := f.Type.(*ast.FuncType); isFtyp && len(f.Names) > 0 {
 				// method
 				p.expr(f.Names[0])
 				p.signature(ftyp)
 			} else {
-				// embedded interface
+				// embedded interface or type-set term (which may be a function type: interface{ func() })
 				p.expr(f.Type)
 			}
 			p.setComment(f.Comment)
